@@ -1,6 +1,8 @@
 //! C05 correspondence: siphash, the five Cuckoo-cycle verifiers, Proof packing / difficulty.
 //!
-//! modes (first arg): `sip`, `exh`, `solve`, `pack`, `select`; internal: `hangprobe`.
+//! modes (first arg): `sip`, `exh`, `solve`, `pack`, `select`, `hist` (one context object through
+//! solve / verify / re-seed histories), `dif` (difficulty over the full parameter space);
+//! internal: `hangprobe`.
 //!
 //! The siphash functions live in a private module of grin_core; the *real source file* is
 //! compiled into this binary by path, so `siphash24` / `siphash_block` below are the code of
@@ -1363,12 +1365,9 @@ fn vectors() -> Vec<Vector> {
 	]
 }
 
-/// (iv) the repo's real-size vectors through the public API, and `create_pow_context` selection
-fn select(out: &mut Out, rng: &mut Rng, _thorough: bool) {
-	global::set_local_chain_type(ChainTypes::Mainnet);
-	let vs = vectors();
-	let mut usable = 0;
-	// "empty header" of the reference miner: all-zero bytes; its length differs between the vectors
+/// "empty header" of the reference miner: all-zero bytes; its length differs between the vectors
+/// (0 = the vector's keys are not those of any all-zero header of 4..400 bytes with its nonce)
+fn vector_hdr_lens(vs: &[Vector]) -> Vec<usize> {
 	let mut hdr_len: Vec<usize> = vec![];
 	for x in vs.iter() {
 		let mut found = 80usize;
@@ -1383,6 +1382,15 @@ fn select(out: &mut Out, rng: &mut Rng, _thorough: bool) {
 		}
 		hdr_len.push(found);
 	}
+	hdr_len
+}
+
+/// (iv) the repo's real-size vectors through the public API, and `create_pow_context` selection
+fn select(out: &mut Out, rng: &mut Rng, _thorough: bool) {
+	global::set_local_chain_type(ChainTypes::Mainnet);
+	let vs = vectors();
+	let mut usable = 0;
+	let hdr_len = vector_hdr_lens(&vs);
 	for (xi, x) in vs.iter().enumerate() {
 		if hdr_len[xi] == 0 {
 			out.raw(&format!("#STAT select: keys of vector {} eb {} are not those of an all-zero header with nonce {}", x.v.name(), x.eb, x.hdr_nonce));
@@ -1508,6 +1516,833 @@ fn select(out: &mut Out, rng: &mut Rng, _thorough: bool) {
 	}
 }
 
+// ---------------------------------------------------------------------------------------------
+// (v) context histories: ONE context object through solve / verify / re-seed sequences.
+// Verification must depend on (header, edge_bits, proof) only, not on what the object did before.
+
+/// the context object under test: Cuckatoo concretely (its keys are observable on the very object)
+enum CtxObj {
+	Too(CuckatooContext),
+	Dyn(Box<dyn PoWContext>),
+}
+impl CtxObj {
+	fn new(v: Var, eb: u8, ps: usize) -> CtxObj {
+		match v {
+			Var::Cuckatoo => CtxObj::Too(CuckatooContext::new_impl(eb, ps, 4).unwrap()),
+			_ => CtxObj::Dyn(v.ctx(eb, ps)),
+		}
+	}
+	fn as_dyn(&mut self) -> &mut dyn PoWContext {
+		match self {
+			CtxObj::Too(c) => c,
+			CtxObj::Dyn(b) => b.as_mut(),
+		}
+	}
+	fn keys(&self) -> Option<[u64; 4]> {
+		match self {
+			CtxObj::Too(c) => {
+				let mut k = [0u64; 4];
+				for i in 0..4 {
+					k[i] = u64::from_str_radix(&c.sipkey_hex(i).unwrap(), 16).unwrap();
+				}
+				Some(k)
+			}
+			_ => None,
+		}
+	}
+}
+
+struct Hist {
+	v: Var,
+	eb: u8,
+	ps: usize,
+	obj: CtxObj,
+	/// header / nonce of the last `set_header_nonce`
+	cur: Option<(Vec<u8>, Option<u32>)>,
+	cur_keys: [u64; 4],
+	/// tag of the current state (for the line and the statistics)
+	state: String,
+	/// the calls made so far on this object
+	log: Vec<String>,
+	/// may the Cuckatoo solver be called (big graphs: `graph.reset()` would allocate gigabytes)
+	solver_ok: bool,
+}
+
+struct HistStats {
+	objects: u64,
+	seeds: u64,
+	finds: HashMap<String, u64>,
+	verdicts: HashMap<(String, String), (u64, u64)>, // (state, what) -> (accepted, refused)
+	fresh_checked: u64,
+	fresh_differs: u64,
+	skipped_hang: u64,
+	sizes: HashMap<String, u64>,
+}
+
+fn hdr_short(h: &[u8]) -> String {
+	if h.len() == 80 && h[8..].iter().all(|b| *b == 0) {
+		format!("seed{}", u64::from_le_bytes([h[0], h[1], h[2], h[3], h[4], h[5], h[6], h[7]]))
+	} else {
+		format!("hdr({} bytes)", h.len())
+	}
+}
+
+impl Hist {
+	fn new(v: Var, eb: u8, ps: usize, solver_ok: bool, out: &mut Out, hs: &mut HistStats) -> Hist {
+		out.line(&format!("pow hnew {} {} {} {}", v.name(), eb, ps, ps), "ok");
+		hs.objects += 1;
+		*hs.sizes.entry(format!("{}/eb{}/ps{}", v.name(), eb, ps)).or_insert(0) += 1;
+		Hist {
+			v,
+			eb,
+			ps,
+			obj: CtxObj::new(v, eb, ps),
+			cur: None,
+			cur_keys: [0; 4],
+			state: "unseeded".to_string(),
+			log: vec![format!("new {} eb={} ps={}", v.name(), eb, ps)],
+			solver_ok,
+		}
+	}
+	fn seed(&mut self, hdr: &[u8], nonce: Option<u32>, solve: bool, state: &str, out: &mut Out, hs: &mut HistStats) {
+		// never let Cuckatoo build a solver graph for a real-size edge_bits
+		let solve = solve && (self.solver_ok || self.v != Var::Cuckatoo);
+		self.obj.as_dyn().set_header_nonce(hdr.to_vec(), nonce, solve).unwrap();
+		self.cur = Some((hdr.to_vec(), nonce));
+		self.cur_keys = real_keys(hdr, nonce);
+		self.state = state.to_string();
+		self.log.push(format!("set_header_nonce({},{:?},solve={})", hdr_short(hdr), nonce, solve));
+		hs.seeds += 1;
+		let observed = match self.obj.keys() {
+			Some(k) => keys_str(&k),
+			None => "-".to_string(),
+		};
+		out.line(
+			&format!(
+				"pow hseed {} {} {}",
+				hex(hdr),
+				nonce.map(|n| n.to_string()).unwrap_or("none".to_string()),
+				solve
+			),
+			&observed,
+		);
+	}
+	/// `find_cycles` through the trait; returns the solutions
+	fn find(&mut self, out: &mut Out, hs: &mut HistStats) -> Vec<Vec<u64>> {
+		let obj = std::panic::AssertUnwindSafe(&mut self.obj);
+		let r = catch(move || {
+			let obj = obj;
+			obj.0.as_dyn().find_cycles()
+		});
+		let (txt, sols, kind) = match r {
+			Ok(Ok(sols)) => {
+				let ss: Vec<Vec<u64>> = sols.iter().map(|p| p.nonces.clone()).collect();
+				let t: Vec<String> = ss.iter().map(|s| nat_list(s)).collect();
+				(t.join(";"), ss, "solutions")
+			}
+			Ok(Err(Error::NoSolution)) => ("nosol".to_string(), vec![], "nosol"),
+			Ok(Err(e)) => {
+				*hs.finds.entry(format!("{}:err({:?})", self.v.name(), e).replace(' ', "_")).or_insert(0) += 1;
+				("err".to_string(), vec![], "err")
+			}
+			Err(_) => ("panic".to_string(), vec![], "panic"),
+		};
+		*hs.finds.entry(format!("{}:{}", self.v.name(), kind)).or_insert(0) += 1;
+		self.log.push(format!("find_cycles()={}", if kind == "solutions" { format!("{} solutions", sols.len()) } else { kind.to_string() }));
+		self.state = format!("{}+f", self.state);
+		out.line("pow hfind", &txt);
+		sols
+	}
+	/// one `verify` call on the object, with the three oracles
+	fn verify(&mut self, what: &str, nonces: &[u64], out: &mut Out, hs: &mut HistStats) -> &'static str {
+		let edge_mask = (1u64 << self.eb) - 1;
+		let eps: Vec<(u64, u64)> = nonces.iter().map(|n| self.v.ep(&self.cur_keys, self.eb, *n)).collect();
+		if self.v == Var::Cuckarood && rood_hangs(self.ps, edge_mask, &eps, nonces) {
+			// the repaired endless walk (regression probes run in child processes in `exh` / `solve`)
+			hs.skipped_hang += 1;
+			return "skipped";
+		}
+		let p = Proof {
+			edge_bits: self.eb,
+			nonces: nonces.to_vec(),
+		};
+		let tag = format!("{}:{}", self.state, what);
+		let res = {
+			let obj = std::panic::AssertUnwindSafe(&mut self.obj);
+			let pp = p.clone();
+			match catch(move || {
+				let obj = obj;
+				let r = obj.0.as_dyn().verify(&pp);
+				err_name(&r)
+			}) {
+				Ok(s) => s,
+				Err(_) => "panic",
+			}
+		};
+		// pipeline self-test (never set by ./check): pretend a verify-only re-seed kept the old keys
+		let res = if std::env::var("VERIF_POW_SELFTEST_HIST").is_ok() && self.state == "H2v" && what == "P" { "ok" } else { res };
+		// the history keeps the state-changing calls in full and counts the verify calls between them
+		match self.log.last_mut() {
+			Some(l) if l.starts_with("verify x") => {
+				let n: u32 = l[8..].parse().unwrap_or(0);
+				*l = format!("verify x{}", n + 1);
+			}
+			_ => self.log.push("verify x1".to_string()),
+		}
+		{
+			// pooled for the statistics: walk states by the header they hold, repeated finds, near misses
+			let mut sc = self.state.clone();
+			while sc.contains("+f+f") {
+				sc = sc.replace("+f+f", "+f");
+			}
+			if sc.starts_with('W') {
+				sc = format!("walk:{}{}{}", &sc[1..3], if sc.contains('n') { "+nonce" } else { "" }, if sc.ends_with("+f") { "+f" } else { "" });
+			}
+			let wc = if what.starts_with("nm") { "near-miss" } else { what };
+			let e = hs.verdicts.entry((sc, wc.to_string())).or_insert((0, 0));
+			if res == "ok" {
+				e.0 += 1;
+			} else {
+				e.1 += 1;
+			}
+		}
+		// oracle 1: a FRESH context created for this (header, edge_bits), seeded for verification
+		let fresh = {
+			let mut f = self.v.ctx(self.eb, self.ps);
+			if let Some((h, n)) = &self.cur {
+				f.set_header_nonce(h.clone(), *n, false).unwrap();
+			}
+			let pp = p.clone();
+			let f = std::panic::AssertUnwindSafe(f);
+			match catch(move || {
+				let r = f.verify(&pp);
+				err_name(&r)
+			}) {
+				Ok(s) => s,
+				Err(_) => "panic",
+			}
+		};
+		hs.fresh_checked += 1;
+		if fresh != res {
+			hs.fresh_differs += 1;
+			out.raw(&format!(
+				"#ORACLE-FAIL C05 verification depends on the history of the context object: variant={} edge_bits={} proofsize={} nonces={} this object says {} but a fresh context for the same header says {}; history: {}",
+				self.v.name(), self.eb, self.ps, nat_list(nonces), res, fresh, self.log.join(" | ")
+			));
+		}
+		// oracle 2: is it a cycle of the CURRENT header's graph
+		let o = oracle(self.v, self.ps, edge_mask, &eps, nonces);
+		if (res == "ok") != o {
+			let seed_txt = self.cur.as_ref().map(|(h, n)| format!("{}/{:?}", hdr_short(h), n)).unwrap_or("unseeded".to_string());
+			out.raw(&format!(
+				"#ORACLE-FAIL C05 verifier {} after a context history: variant={} edge_bits={} proofsize={} keys=[{}] header={} nonces={} implementation={} oracle={} case={} history: {}",
+				if res == "ok" { "accepts a non-cycle" } else { "rejects a cycle" },
+				self.v.name(), self.eb, self.ps, keys_str(&self.cur_keys), seed_txt, nat_list(nonces), res,
+				if o { "accept" } else { "reject" }, tag, self.log.join(" | ")
+			));
+		}
+		out.line(&format!("pow hverify {} {}", tag, nat_list(nonces)), res);
+		res
+	}
+}
+
+/// `seed_with_cycle`, keeping only cycles the harness oracle confirms (the DFS lets a walk pass
+/// through its start vertex midway, so a few of its results are figure-eights)
+fn seed_with_true_cycle(v: Var, eb: u8, ps: usize, rng: &mut Rng, tries: u32) -> Option<(u64, Vec<u64>)> {
+	for _ in 0..8 {
+		let (s, c) = seed_with_cycle(v, eb, ps, rng, tries)?;
+		let k = real_keys(&header(s), None);
+		let eps: Vec<(u64, u64)> = c.iter().map(|n| v.ep(&k, eb, *n)).collect();
+		if oracle(v, ps, (1u64 << eb) - 1, &eps, &c) {
+			return Some((s, c));
+		}
+	}
+	None
+}
+
+/// near misses of a cycle (label, nonces)
+fn nm_list(cyc: &[u64], eb: u8, rng: &mut Rng) -> Vec<(&'static str, Vec<u64>)> {
+	let ps = cyc.len();
+	let n_edges = 1u64 << eb;
+	let mut r: Vec<(&'static str, Vec<u64>)> = vec![];
+	for _ in 0..2 {
+		let i = rng.below(ps as u64) as usize;
+		let x = rng.below(n_edges);
+		if !cyc.contains(&x) {
+			let mut t = cyc.to_vec();
+			t[i] = x;
+			t.sort_unstable();
+			r.push(("nm-changed", t));
+		}
+	}
+	{
+		let i = rng.below(ps as u64) as usize;
+		let x = cyc[i] ^ 1;
+		if !cyc.contains(&x) {
+			let mut t = cyc.to_vec();
+			t[i] = x;
+			t.sort_unstable();
+			r.push(("nm-changed", t));
+		}
+	}
+	{
+		let i = rng.below(ps as u64 - 1) as usize;
+		let mut t = cyc.to_vec();
+		t.swap(i, i + 1);
+		r.push(("nm-swapped", t));
+		let mut t = cyc.to_vec();
+		t[i + 1] = t[i];
+		r.push(("nm-duplicated", t));
+		let mut t = cyc.to_vec();
+		t[ps - 1] += n_edges;
+		r.push(("nm-outofrange", t));
+		r.push(("nm-wrongcount", cyc[..ps - 1].to_vec()));
+	}
+	r
+}
+
+fn hist(out: &mut Out, rng: &mut Rng, thorough: bool) {
+	let mut hs = HistStats {
+		objects: 0,
+		seeds: 0,
+		finds: HashMap::new(),
+		verdicts: HashMap::new(),
+		fresh_checked: 0,
+		fresh_differs: 0,
+		skipped_hang: 0,
+		sizes: HashMap::new(),
+	};
+	let mut p_is_cycle_of_h2 = 0u64;
+	let mut solver_missing = 0u64;
+	// (a) solver-found cycles, proof size 8 (AutomatedTesting) at edge_bits 6..10 and 42
+	// (UserTesting) at edge_bits 11
+	for (ps, ebs, objects) in [
+		(8usize, vec![6u8, 7, 8, 9, 10], if thorough { 160 } else { 36 }),
+		(42usize, vec![11u8], if thorough { 4 } else { 1 }),
+	]
+	.iter()
+	{
+		set_chain_for(*ps);
+		for v in VARS.iter() {
+			for oi in 0..*objects {
+				let eb = ebs[oi % ebs.len()];
+				let tries = if *ps == 8 { 20000 } else { 400 };
+				let (s1, p) = match seed_with_true_cycle(*v, eb, *ps, rng, tries) {
+					Some(x) => x,
+					None => continue,
+				};
+				// H2: a graph with its own cycle Q (half of the objects) or any graph
+				let (s2, q) = if oi % 2 == 0 && *ps == 8 {
+					match seed_with_true_cycle(*v, eb, *ps, rng, tries) {
+						Some((s, c)) => (s, Some(c)),
+						None => (rng.next(), None),
+					}
+				} else {
+					(rng.next(), None)
+				};
+				let (h1, h2) = (header(s1), header(s2));
+				let zero = vec![0u64; *ps];
+				let mut h = Hist::new(*v, eb, *ps, true, out, &mut hs);
+				let all = |h: &mut Hist, rng: &mut Rng, with_nm: bool, out: &mut Out, hs: &mut HistStats| {
+					h.verify("P", &p, out, hs);
+					if let Some(q) = &q {
+						h.verify("Q", q, out, hs);
+					}
+					h.verify("zero", &zero, out, hs);
+					if with_nm {
+						for (l, t) in nm_list(&p, eb, rng) {
+							h.verify(l, &t, out, hs);
+						}
+						if let Some(q) = &q {
+							for (l, t) in nm_list(q, eb, rng).into_iter().take(3) {
+								h.verify(if l == "nm-changed" { "nmQ-changed" } else { "nmQ-other" }, &t, out, hs);
+							}
+						}
+					}
+				};
+				// never seeded: keys [0; 4]
+				all(&mut h, rng, false, out, &mut hs);
+				// solve H1: between set_header_nonce(solve = true) and find_cycles the scratch proof
+				// (all zero) must be refused and P is already a cycle of the graph
+				h.seed(&h1, None, true, "H1s", out, &mut hs);
+				all(&mut h, rng, true, out, &mut hs);
+				let sols = h.find(out, &mut hs);
+				if *v == Var::Cuckatoo && !sols.contains(&p) {
+					solver_missing += 1;
+					if solver_missing <= 3 {
+						out.raw(&format!(
+							"#STAT hist observation (solver, not verification): CuckatooContext::find_cycles did not report the genuine {}-cycle {} of header seed{} edge_bits={} ({})",
+							ps, nat_list(&p), s1, eb, h.log.last().unwrap()
+						));
+					}
+				}
+				for s in sols.iter() {
+					h.verify("sol", s, out, &mut hs);
+				}
+				all(&mut h, rng, true, out, &mut hs);
+				// re-seed the SAME object with H2 for verification only
+				h.seed(&h2, None, false, "H2v", out, &mut hs);
+				{
+					let k2 = real_keys(&h2, None);
+					let eps: Vec<(u64, u64)> = p.iter().map(|n| v.ep(&k2, eb, *n)).collect();
+					if oracle(*v, *ps, (1u64 << eb) - 1, &eps, &p) {
+						p_is_cycle_of_h2 += 1;
+					}
+				}
+				for s in sols.iter() {
+					h.verify("sol-of-H1", s, out, &mut hs);
+				}
+				all(&mut h, rng, true, out, &mut hs);
+				// re-seed with H2 for solving, verify before and after the solver ran
+				h.seed(&h2, None, true, "H2s", out, &mut hs);
+				all(&mut h, rng, false, out, &mut hs);
+				let sols2 = h.find(out, &mut hs);
+				for s in sols2.iter() {
+					h.verify("sol", s, out, &mut hs);
+				}
+				all(&mut h, rng, true, out, &mut hs);
+				// back to H1, verification only: P is accepted again, the solutions of H2 are not
+				h.seed(&h1, None, false, "H1v", out, &mut hs);
+				for s in sols2.iter() {
+					h.verify("sol-of-H2", s, out, &mut hs);
+				}
+				all(&mut h, rng, true, out, &mut hs);
+				// same header bytes with a trailing nonce: another graph
+				h.seed(&h1, Some(rng.next() as u32), false, "H1n", out, &mut hs);
+				all(&mut h, rng, false, out, &mut hs);
+				// find_cycles on an object seeded for verification only (no graph was set up)
+				if oi % 4 == 1 {
+					h.find(out, &mut hs);
+					all(&mut h, rng, false, out, &mut hs);
+				}
+				// a random walk of further calls
+				let mut walk_sols: Vec<Vec<u64>> = vec![];
+				for step in 0..(if thorough { 16 } else { 10 }) {
+					match rng.below(10) {
+						0..=3 => {
+							let which = rng.below(3);
+							let hd = match which {
+								0 => h1.clone(),
+								1 => h2.clone(),
+								_ => header(rng.next()),
+							};
+							let solve = rng.chance(1, 2);
+							let nonce = if rng.chance(1, 5) { Some(rng.next() as u32) } else { None };
+							let st = format!(
+								"W{}{}{}",
+								["H1", "H2", "H3"][which as usize],
+								if solve { "s" } else { "v" },
+								if nonce.is_some() { "n" } else { "" }
+							);
+							h.seed(&hd, nonce, solve, &st, out, &mut hs);
+						}
+						4 => {
+							// the solver, also twice in a row / without a preceding solve seeding
+							walk_sols = h.find(out, &mut hs);
+						}
+						_ => {}
+					}
+					let _ = step;
+					match rng.below(5) {
+						0 => {
+							h.verify("P", &p, out, &mut hs);
+						}
+						1 => {
+							if let Some(q) = &q {
+								h.verify("Q", q, out, &mut hs);
+							} else {
+								h.verify("zero", &zero, out, &mut hs);
+							}
+						}
+						2 => {
+							for s in walk_sols.iter().take(2) {
+								h.verify("sol-earlier", s, out, &mut hs);
+							}
+							h.verify("P", &p, out, &mut hs);
+						}
+						_ => {
+							let nm = nm_list(&p, eb, rng);
+							let (l, t) = &nm[rng.below(nm.len() as u64) as usize];
+							h.verify(l, t, out, &mut hs);
+							h.verify("P", &p, out, &mut hs);
+						}
+					}
+				}
+			}
+		}
+	}
+	// (b) the repo's real-size 42-cycles (edge_bits 19 / 29 / 31): verify-only re-seeding of one
+	// object between the vector's header nonce and other nonces (the Cuckatoo solver is never set up
+	// at these sizes; the other four contexts ignore `solve`)
+	set_chain_for(42);
+	let vs = vectors();
+	let lens = vector_hdr_lens(&vs);
+	for (xi, x) in vs.iter().enumerate() {
+		if lens[xi] == 0 {
+			continue;
+		}
+		let hdr = vec![0u8; lens[xi]];
+		let sol = x.sol.to_vec();
+		let zero = vec![0u64; 42];
+		let mut h = Hist::new(x.v, x.eb, 42, false, out, &mut hs);
+		// a second vector of the same variant and edge_bits, if the repo has one
+		let other = vs.iter().enumerate().find(|(yi, y)| *yi != xi && y.v == x.v && y.eb == x.eb && lens[*yi] == lens[xi]);
+		let both = |h: &mut Hist, rng: &mut Rng, out: &mut Out, hs: &mut HistStats| {
+			h.verify("P", &sol, out, hs);
+			if let Some((_, y)) = other {
+				h.verify("Q", &y.sol.to_vec(), out, hs);
+			}
+			h.verify("zero", &zero, out, hs);
+			let nm = nm_list(&sol, x.eb, rng);
+			for (l, t) in nm.into_iter().take(4) {
+				h.verify(l, &t, out, hs);
+			}
+		};
+		both(&mut h, rng, out, &mut hs);
+		h.seed(&hdr, Some(x.hdr_nonce), false, "H1v", out, &mut hs);
+		both(&mut h, rng, out, &mut hs);
+		let n2 = other.map(|(_, y)| y.hdr_nonce).unwrap_or(x.hdr_nonce + 1);
+		h.seed(&hdr, Some(n2), false, "H2v", out, &mut hs);
+		both(&mut h, rng, out, &mut hs);
+		h.seed(&hdr, Some(n2), true, "H2s", out, &mut hs);
+		both(&mut h, rng, out, &mut hs);
+		if x.v != Var::Cuckatoo {
+			h.find(out, &mut hs); // unimplemented!() - must leave the object usable
+			both(&mut h, rng, out, &mut hs);
+		}
+		h.seed(&hdr, None, false, "H1n", out, &mut hs);
+		both(&mut h, rng, out, &mut hs);
+		h.seed(&hdr, Some(x.hdr_nonce), true, "H1s", out, &mut hs);
+		both(&mut h, rng, out, &mut hs);
+	}
+	// statistics
+	out.raw(&format!(
+		"#STAT hist context objects={} set_header_nonce calls={} verify calls compared with a fresh context={} (differing: {}) cuckarood inputs skipped (pre-repair endless walk)={}",
+		hs.objects, hs.seeds, hs.fresh_checked, hs.fresh_differs, hs.skipped_hang
+	));
+	let mut f: Vec<String> = hs.finds.iter().map(|(k, v)| format!("{}={}", k, v)).collect();
+	f.sort();
+	out.raw(&format!("#STAT hist find_cycles calls: {}", f.join(" ")));
+	out.raw(&format!(
+		"#STAT hist P (cycle of H1) that happens to be a cycle of H2 too={} cuckatoo solver runs that did not report the DFS cycle P={}",
+		p_is_cycle_of_h2, solver_missing
+	));
+	let mut sz: Vec<String> = hs.sizes.iter().map(|(k, v)| format!("{}={}", k, v)).collect();
+	sz.sort();
+	out.raw(&format!("#STAT hist objects by variant/edge_bits/proofsize: {}", sz.join(" ")));
+	// verdicts by state and proof kind: accepted/refused
+	let mut by: HashMap<String, Vec<String>> = HashMap::new();
+	let mut keys: Vec<&(String, String)> = hs.verdicts.keys().collect();
+	keys.sort();
+	for k in keys {
+		let (a, r) = hs.verdicts[k];
+		by.entry(k.0.clone()).or_default().push(format!("{} {}/{}", k.1, a, r));
+	}
+	let mut states: Vec<&String> = by.keys().collect();
+	states.sort();
+	for st in states {
+		out.raw(&format!("#STAT hist state {} (accepted/refused): {}", st, by[st].join(", ")));
+	}
+}
+
+// ---------------------------------------------------------------------------------------------
+// (vi) difficulty over the full parameter space
+
+fn bits_of(x: u64) -> u32 {
+	64 - x.leading_zeros()
+}
+
+/// independent check of `d = max(1, min(floor(scale * 2^64 / max(1,h)), u64::MAX))` by
+/// multiplication (no division): `q*H <= N < (q+1)*H`
+fn diff_ok(scale: u64, h: u64, d: u64) -> bool {
+	let n: u128 = (scale as u128) << 64;
+	let hh: u128 = std::cmp::max(1, h) as u128;
+	if scale == 0 {
+		return d == 1;
+	}
+	// scale >= 1 and H < 2^64: the quotient is >= 1, so from_num changes nothing
+	if d == u64::MAX {
+		(d as u128) * hh <= n
+	} else {
+		(d as u128) * hh <= n && n < (d as u128 + 1) * hh
+	}
+}
+
+fn dif(out: &mut Out, rng: &mut Rng, thorough: bool) {
+	use grin_core::consensus::{graph_weight, WEEK_HEIGHT, YEAR_HEIGHT};
+	use grin_core::core::hash::Hashed;
+	use grin_core::pow::{Difficulty, ProofOfWork};
+	let chains = [
+		(ChainTypes::AutomatedTesting, "automatedtesting", 8usize),
+		(ChainTypes::UserTesting, "usertesting", 42usize),
+		(ChainTypes::Testnet, "testnet", 42usize),
+		(ChainTypes::Mainnet, "mainnet", 42usize),
+	];
+	// heights across the hard-fork eras and the C31 phase-out (one bit of weight per week)
+	let hf = YEAR_HEIGHT / 2;
+	let mut heights: Vec<u64> = vec![0, 1, hf - 1, hf, 3 * hf, 4 * hf - 1, 4 * hf, 5 * hf, 2 * YEAR_HEIGHT + 30 * WEEK_HEIGHT, 3 * YEAR_HEIGHT, 4 * YEAR_HEIGHT];
+	for k in 0..=33u64 {
+		heights.push(YEAR_HEIGHT + k * WEEK_HEIGHT - 1);
+		heights.push(YEAR_HEIGHT + k * WEEK_HEIGHT);
+	}
+	for t in [185_040u64, 298_080, 552_960, 642_240].iter() {
+		heights.push(*t - 1);
+		heights.push(*t);
+	}
+	heights.extend_from_slice(&[1 << 32, 1 << 63, u64::MAX - 1, u64::MAX]);
+	let few: Vec<u64> = vec![0, YEAR_HEIGHT - 1, YEAR_HEIGHT, YEAR_HEIGHT + 5 * WEEK_HEIGHT, 4 * YEAR_HEIGHT, u64::MAX];
+	// (a) graph_weight itself: every chain type, every edge_bits 10..63
+	let mut gw_lines = 0u64;
+	let mut gw_bits: HashMap<u32, u64> = HashMap::new();
+	for (ct, cname, _) in chains.iter() {
+		global::set_local_chain_type(*ct);
+		for eb in 10u8..=63 {
+			let hl = if eb == 31 { &heights } else { &few };
+			for h in hl.iter() {
+				let (hh, e) = (*h, eb);
+				let w = match catch(move || graph_weight(hh, e)) {
+					Ok(w) => {
+						*gw_bits.entry(bits_of(w)).or_insert(0) += 1;
+						w.to_string()
+					}
+					Err(_) => "panic".to_string(),
+				};
+				out.line(&format!("pow gw {} {} {}", cname, h, eb), &w);
+				gw_lines += 1;
+			}
+		}
+	}
+	let mut gb: Vec<(u32, u64)> = gw_bits.into_iter().collect();
+	gb.sort();
+	out.raw(&format!(
+		"#STAT dif graph_weight lines={} bit length of the weight -> count: {}",
+		gw_lines,
+		gb.iter().map(|(b, c)| format!("{}b={}", b, c)).collect::<Vec<_>>().join(" ")
+	));
+	// (b) to_difficulty
+	let cases = if thorough { 250_000 } else { 40_000 };
+	let kcand = 128;
+	let secs: [u32; 10] = [0, 1, 2, 3, 255, 1 << 16, 1 << 31, u32::MAX - 1, u32::MAX, 1856];
+	let mut st_chain: HashMap<&str, u64> = HashMap::new();
+	let mut st_eb: HashMap<&str, u64> = HashMap::new();
+	let mut st_scale: HashMap<&str, u64> = HashMap::new();
+	let mut st_res: HashMap<&str, u64> = HashMap::new();
+	let mut st_kind: HashMap<&str, u64> = HashMap::new();
+	let mut st_sec: HashMap<&str, u64> = HashMap::new();
+	let (mut min_h, mut max_h, mut near_half, mut near_mult_rel, mut near_scale_rel) = (u64::MAX, 0u64, u64::MAX, 64u32, 64u32);
+	let (mut saturated, mut lifted, mut nondet, mut bad, mut panics) = (0u64, 0u64, 0u64, 0u64, 0u64);
+	for i in 0..cases {
+		let (ct, cname, ps) = chains[match rng.below(10) {
+			0..=3 => 0,
+			4..=6 => 1,
+			7 => 2,
+			_ => 3,
+		}];
+		global::set_local_chain_type(ct);
+		let eb: u8 = match rng.below(10) {
+			0..=3 => rng.range(10, 63) as u8,
+			4..=6 => rng.range(40, 63) as u8,
+			7 | 8 => 29,
+			_ => *rng.pick(&[31u8, 32, 30, 28, 63, 10]),
+		};
+		let height = match rng.below(4) {
+			0 => *rng.pick(&heights),
+			1 => rng.below(5 * YEAR_HEIGHT),
+			2 => YEAR_HEIGHT + rng.below(34 * WEEK_HEIGHT),
+			_ => rng.next() >> rng.below(64),
+		};
+		let sec: u32 = match rng.below(3) {
+			0 => *rng.pick(&secs),
+			1 => (rng.next() >> rng.range(32, 63)) as u32,
+			_ => rng.next() as u32,
+		};
+		let scale = if eb == 29 { sec as u64 } else { graph_weight(height, eb) };
+		let mask = (1u64 << eb) - 1;
+		let kind = match i % 8 {
+			0 | 7 => "random",
+			1 => "min-hash",
+			2 => "max-hash",
+			3 => "near-2^63",
+			4 => "near-multiple-of-scale",
+			5 => "near-scale",
+			_ => "below-multiple-of-scale",
+		};
+		let kind = if scale <= 1 && (kind == "near-multiple-of-scale" || kind == "below-multiple-of-scale") {
+			"min-hash"
+		} else {
+			kind
+		};
+		let gen = |rng: &mut Rng| -> Proof {
+			let mut nonces: Vec<u64> = (0..ps)
+				.map(|_| match rng.below(8) {
+					0 => mask - rng.below(4),
+					1 => rng.below(4),
+					_ => rng.next() & mask,
+				})
+				.collect();
+			if rng.chance(7, 8) {
+				nonces.sort_unstable();
+			}
+			Proof {
+				edge_bits: eb,
+				nonces,
+			}
+		};
+		// steer the hash prefix: the best of `kcand` candidate nonce lists
+		let score = |h: u64| -> u64 {
+			match kind {
+				"min-hash" => h,
+				"max-hash" => u64::MAX - h,
+				"near-2^63" => (h as i128 - (1i128 << 63)).abs() as u64,
+				"near-multiple-of-scale" => std::cmp::min(h % scale, scale - h % scale),
+				"below-multiple-of-scale" => scale - 1 - h % scale,
+				"near-scale" => (h as i128 - scale as i128).abs() as u64,
+				_ => 0,
+			}
+		};
+		let mut p = gen(rng);
+		if kind != "random" {
+			let mut best = score(p.hash().to_u64());
+			for _ in 1..kcand {
+				let c = gen(rng);
+				let sc = score(c.hash().to_u64());
+				if sc < best {
+					best = sc;
+					p = c;
+				}
+			}
+		}
+		let h = p.hash().to_u64();
+		let packed = p.pack_nonces();
+		let mut pow = ProofOfWork::default();
+		pow.proof = p.clone();
+		pow.secondary_scaling = sec;
+		pow.nonce = rng.next();
+		pow.total_difficulty = Difficulty::from_num(rng.next());
+		let pw = pow.clone();
+		let d = match catch(move || pw.to_difficulty(height).to_num()) {
+			Ok(d) => d,
+			Err(_) => {
+				panics += 1;
+				out.line(&format!("pow todiff {} {} {} {} {}", cname, height, eb, sec, hex(&packed)), "panic");
+				continue;
+			}
+		};
+		out.line(&format!("pow todiff {} {} {} {} {}", cname, height, eb, sec, hex(&packed)), &d.to_string());
+		// Rust-side oracles: the floor characterisation by multiplication; determinism (the other
+		// fields of the ProofOfWork, a proof rebuilt from its serialisation)
+		if !diff_ok(scale, h, d) {
+			bad += 1;
+			out.raw(&format!(
+				"#ORACLE-FAIL C05 difficulty is not floor(scale*2^64/max(1,hash)) saturating, at least 1: chain={} height={} edge_bits={} secondary_scaling={} scale={} hash_prefix={} nonces={} result={}",
+				cname, height, eb, sec, scale, h, nat_list(&p.nonces), d
+			));
+		}
+		if i % 4 == 0 {
+			let mut pow2 = ProofOfWork::default();
+			pow2.secondary_scaling = sec;
+			pow2.nonce = rng.next();
+			pow2.total_difficulty = Difficulty::from_num(rng.next());
+			let bytes = ser::ser_vec(&p, ser::ProtocolVersion::local()).unwrap();
+			let back: Result<Proof, ser::Error> = ser::deserialize(&mut &bytes[..], ser::ProtocolVersion::local(), ser::DeserializationMode::default());
+			if let Ok(q) = back {
+				if q.pack_nonces() == packed {
+					pow2.proof = q;
+					let d2 = pow2.to_difficulty(height).to_num();
+					if d2 != d {
+						nondet += 1;
+						out.raw(&format!(
+							"#ORACLE-FAIL C05 difficulty is not a function of the packed nonces: chain={} height={} edge_bits={} secondary_scaling={} packed={} gives {} and {}",
+							cname, height, eb, sec, hex(&packed), d, d2
+						));
+					}
+				}
+			}
+		}
+		if i % 8 == 3 {
+			let u = pow.to_unscaled_difficulty().to_num();
+			out.line(&format!("pow undiff {}", hex(&packed)), &u.to_string());
+			if !diff_ok(1, h, u) {
+				bad += 1;
+				out.raw(&format!("#ORACLE-FAIL C05 unscaled difficulty of nonces={} edge_bits={} hash_prefix={} is {}", nat_list(&p.nonces), eb, h, u));
+			}
+		}
+		// statistics
+		*st_chain.entry(cname).or_insert(0) += 1;
+		*st_kind.entry(kind).or_insert(0) += 1;
+		*st_eb.entry(match eb {
+			29 => "29(secondary)",
+			31 => "31(phase-out)",
+			10..=23 => "10-23",
+			24..=39 => "24-39",
+			40..=52 => "40-52",
+			_ => "53-63",
+		})
+		.or_insert(0) += 1;
+		*st_scale.entry(match bits_of(scale) {
+			0 => "0",
+			1 => "1",
+			2..=16 => "2^1..2^16",
+			17..=32 => "2^16..2^32",
+			33..=45 => "2^32..2^45",
+			46..=54 => "2^45..2^54",
+			55..=61 => "2^54..2^61",
+			_ => "2^61..2^64(wrapped weights)",
+		})
+		.or_insert(0) += 1;
+		if eb == 29 {
+			*st_sec.entry(match sec {
+				0 => "0",
+				1 => "1",
+				u32::MAX => "u32::MAX",
+				2..=65535 => "2..2^16",
+				_ => "2^16..",
+			})
+			.or_insert(0) += 1;
+		}
+		if d == u64::MAX {
+			saturated += 1;
+		}
+		if scale == 0 {
+			lifted += 1;
+		}
+		*st_res.entry(match bits_of(d) {
+			0..=1 => "1",
+			2..=32 => "2..2^32",
+			33..=53 => "2^32..2^53",
+			54..=63 => "2^53..2^63",
+			_ => ">=2^63",
+		})
+		.or_insert(0) += 1;
+		min_h = std::cmp::min(min_h, h);
+		max_h = std::cmp::max(max_h, h);
+		near_half = std::cmp::min(near_half, (h as i128 - (1i128 << 63)).abs() as u64);
+		if scale >= (1 << 40) {
+			// distance to the nearest multiple of the scale / to the scale, in bits below the scale
+			let dm = std::cmp::min(h % scale, scale - h % scale);
+			near_mult_rel = std::cmp::min(near_mult_rel, bits_of(dm) + 64 - bits_of(scale));
+			let ds = (h as i128 - scale as i128).abs() as u64;
+			near_scale_rel = std::cmp::min(near_scale_rel, bits_of(ds) + 64 - bits_of(scale));
+		}
+	}
+	let show = |m: &HashMap<&str, u64>| -> String {
+		let mut v: Vec<String> = m.iter().map(|(k, c)| format!("{}={}", k, c)).collect();
+		v.sort();
+		v.join(" ")
+	};
+	out.raw(&format!("#STAT dif to_difficulty cases={} (candidates per steered case={}) by chain: {}", cases, kcand, show(&st_chain)));
+	out.raw(&format!("#STAT dif edge_bits: {}", show(&st_eb)));
+	out.raw(&format!("#STAT dif effective scale: {}", show(&st_scale)));
+	out.raw(&format!("#STAT dif secondary_scaling at edge_bits 29: {}", show(&st_sec)));
+	out.raw(&format!("#STAT dif steering: {}", show(&st_kind)));
+	out.raw(&format!("#STAT dif result size: {} ; saturated at u64::MAX={} scale 0 lifted to 1 by from_num={} panics={}", show(&st_res), saturated, lifted, panics));
+	out.raw(&format!(
+		"#STAT dif hash prefix extremes: min={} ({} bits) max=2^64-{} nearest to 2^63: distance {} bits; for scales >= 2^40: nearest multiple of the scale within 2^-{} of the scale, nearest to the scale itself within 2^-{}",
+		min_h, bits_of(min_h), (u64::MAX - max_h) as u128 + 1, bits_of(near_half), 64 - near_mult_rel.min(64), 64 - near_scale_rel.min(64)
+	));
+	out.raw(&format!("#STAT dif Rust-side oracle (floor characterisation by multiplication) failures={} determinism failures={}", bad, nondet));
+}
+
 fn main() {
 	quiet_panics();
 	let args: Vec<String> = std::env::args().collect();
@@ -1527,6 +2362,8 @@ fn main() {
 		"solve" => solve(&mut out, &mut rng, thorough),
 		"pack" => pack(&mut out, &mut rng, thorough),
 		"select" => select(&mut out, &mut rng, thorough),
+		"hist" => hist(&mut out, &mut rng, thorough),
+		"dif" => dif(&mut out, &mut rng, thorough),
 		_ => panic!("unknown mode"),
 	}
 	out.flush();
